@@ -232,3 +232,15 @@ fn test_offsetnz() {
         assert_eq!(offsetnz(x), i);
     }
 }
+
+// Verification hook (H1): expose the private block functions. Compiled only with
+// `--cfg httparse_verif`.
+#[cfg(httparse_verif)]
+pub fn verif_uri_block(block: ByteBlock) -> usize {
+    match_uri_char_8_swar(block)
+}
+
+#[cfg(httparse_verif)]
+pub fn verif_header_value_block(block: ByteBlock) -> usize {
+    match_header_value_char_8_swar(block)
+}
